@@ -55,7 +55,12 @@ Choices(c) ==
       m \in (IF ~has("Into") THEN { <<>> }
              ELSE IF Len(c.opts.targets) = 1 THEN { <<[t |-> "A", m |-> FALSE]>>, <<[t |-> "A", m |-> TRUE]>> }
              ELSE { <<[t |-> "A", m |-> FALSE], [t |-> "B", m |-> FALSE]>>, <<[t |-> "A", m |-> TRUE], [t |-> "B", m |-> FALSE]>>,
-                    <<[t |-> "B", m |-> TRUE], [t |-> "A", m |-> FALSE]>> }) }
+                    <<[t |-> "B", m |-> TRUE], [t |-> "A", m |-> FALSE]>>,
+                    \* this field serves A only; the next one serves B
+                    <<[t |-> "A", m |-> FALSE]>> }) }
+BFields(c) == { [DefField EXCEPT !.ty = ty, !.into = <<[t |-> "B", m |-> FALSE]>>] : ty \in (IF c.opts.gen = "TU" THEN {"U"} ELSE {"WrapT"}) }
+TwoTargets(c) == HasTrait(c, "Into") /\ Len(c.opts.targets) = 2
+ServesB(f) == \E k \in DOMAIN f.into : f.into[k].t = "B"
 
 PhantomField == [DefField EXCEPT !.ty = "PhantomAll"]
 PlainFields(c) ==
@@ -67,14 +72,20 @@ MCFieldSet(c) ==
     IF n > 0 /\ Last(lv.fields).ty = "PhantomAll" THEN {}
     ELSE IF NVariants(c) = 2 THEN (IF n = 0 /\ lv.style = "tuple" /\ ~lv.dflt THEN PlainFields(c) ELSE {})
     ELSE IF n = 0 THEN Choices(c)
+    ELSE IF n = 1 /\ TwoTargets(c) /\ ~ServesB(lv.fields[1]) THEN BFields(c)
     ELSE {PhantomField}
 
 MCAdmissible(c) ==
   /\ NVariants(c) >= 1
-  /\ NFields(c, 1) = 2 /\ Last(c.variants[1].fields).ty = "PhantomAll"
+  /\ NFields(c, 1) \in {2, 3} /\ Last(c.variants[1].fields).ty = "PhantomAll"
   /\ \A v \in 2..NVariants(c) : NFields(c, v) >= 1
   /\ HasTrait(c, "Default") => DefaultWellDesignated(c)
-  /\ HasTrait(c, "Into") => IntoWellDesignated(c)
+  /\ HasTrait(c, "Into") => /\ IntoDesignated(c)
+                             \* a conversion is asked of a bare type parameter (or is the identity): anything else
+                             \* (u8: Into<TA>) would be the user's own ill-typed input
+                             /\ \A v \in 1..NVariants(c) : \A k \in DOMAIN c.opts.targets :
+                                   LET t == c.opts.targets[k] IN
+                                     IntoMode(c, v, t) = "convert" => c.variants[v].fields[IntoField(c, v, t)].ty \in {"T", "U"}
 
 Init == BuildInit
 Emit == phase = "sealed" /\ phase' = "emitted" /\ UNCHANGED cfg
